@@ -539,6 +539,6 @@ def execute(cases_, tier, seed):
         tier, len(unis), 1 if tier == "quick" else 2, "" if tier == "quick" else "; two-type universes for every outer x inner kind")
     res.assumptions = ["schemars 0.8.22 with default (draft-07) settings produces the schemas", "sample values that T itself cannot round-trip through serde_json are excluded (counted)"]
     shutil.rmtree(odir, ignore_errors=True)
-    if len(unis) > 20 and n_values < 200:
+    if not res.violations and (len(unis) > 20 and n_values < 200):   # a subject that breaks everything is reported through its violations, not as vacuity
         raise MachineryError("vacuity guard: only %d values crossed" % n_values)
     return res
